@@ -78,23 +78,47 @@ let predict_oa setup op =
   Printf.sprintf "n=%d ? ks=%s" n (tokens_of n tok)
 
 (* ------------------------------------------------------------------ array add / put / insert *)
+(* The setup may be any fault-free history of builds and array operations on the subject
+   (json_object_array_shrink, add, put_idx, insert_idx): the capacity the test operation meets
+   is whatever that history left (exactly the length after shrink(a, 0), doubled after a
+   growth, ...).  Arrays that come out of the parser or of a deep copy are not modelled here. *)
 let predict_arr setup op =
-  let a = args op in
-  let r = reg (List.nth a 0) and c = reg (List.nth a 1) in
-  let builds = List.map (fun o -> match build_of o with Some x -> x | None -> raise Unmodelled) setup in
-  let elems = match List.assoc r builds with JArr l -> l | _ -> raise Unmodelled in
-  let child = match List.assoc_opt c builds with Some JNull -> None | Some _ -> Some (z_of_int 999) | None -> raise Unmodelled in
   let yes _ = true and no _ = false in
-  let a0 = match al_new2 yes (z_of_int 32) with NOk a -> a | _ -> raise Unmodelled in
-  let arr = List.fold_left (fun a (i, x) ->
-      let e = match x with JNull -> None | _ -> Some (z_of_int i) in
-      match al_add yes a e with AOk (a', _, _, _) -> a' | _ -> raise Unmodelled) a0
-      (List.mapi (fun i x -> (i, x)) elems) in
-  let o = match kind op with
-    | "aa" -> OAdd child
-    | "ap" -> OPut (z_of_string (List.nth a 2), child)
-    | "ai" -> OInsert (z_of_string (List.nth a 2), child)
+  let arrays : (int * alist) list ref = ref [] and others : (int * elt) list ref = ref [] in
+  let fresh = ref 1000 in
+  let arr_of r = try List.assoc r !arrays with Not_found -> raise Unmodelled in
+  let set_arr r a = arrays := (r, a) :: List.remove_assoc r !arrays in
+  (* the element a child register stands for; the register is consumed by a successful add *)
+  let child_of c = try List.assoc c !others with Not_found -> raise Unmodelled in
+  let array_op o =
+    let a = args o in
+    let r = reg (List.nth a 0) in
+    match kind o with
+    | "as" -> (r, None, OShrink (z_of_string (List.nth a 1)))
+    | "aa" -> let c = reg (List.nth a 1) in (r, Some c, OAdd (child_of c))
+    | "ap" -> let c = reg (List.nth a 1) in (r, Some c, OPut (z_of_string (List.nth a 2), child_of c))
+    | "ai" -> let c = reg (List.nth a 1) in (r, Some c, OInsert (z_of_string (List.nth a 2), child_of c))
     | _ -> raise Unmodelled in
+  List.iter (fun o ->
+      match build_of o with
+      | Some (d, JArr elems) ->
+        let a0 = match al_new2 yes (z_of_int 32) with NOk a -> a | _ -> raise Unmodelled in
+        let a = List.fold_left (fun a x ->
+            let e = match x with JNull -> None | _ -> (incr fresh; Some (z_of_int !fresh)) in
+            match al_add yes a e with AOk (a', _, _, _) -> a' | _ -> raise Unmodelled) a0 elems in
+        set_arr d a
+      | Some (d, JNull) -> others := (d, None) :: !others
+      | Some (d, _) -> incr fresh; others := (d, Some (z_of_int !fresh)) :: !others
+      | None ->
+        let (r, c, aop) = array_op o in
+        (match al_step yes (arr_of r) aop with
+         | AOk (a', _, _, _) ->
+           set_arr r a';
+           (match c with Some c -> others := List.remove_assoc c !others | None -> ())
+         | AFail _ -> ()           (* refused for its arguments (e.g. shrink below the length): as in C, nothing changes *)
+         | AUB -> raise Unmodelled)) setup;
+  let (r, _, o) = array_op op in
+  let arr = arr_of r in
   let ok r = match r with AOk _ -> true | _ -> false in
   let r1 = al_step yes arr o and r0 = al_step no arr o in
   if ok r1 && not (ok r0) then
@@ -218,7 +242,7 @@ let run line =
         | [op] ->
           (match kind op with
            | "oa" -> predict_oa setup op
-           | "aa" | "ap" | "ai" -> predict_arr setup op
+           | "aa" | "ap" | "ai" | "as" -> predict_arr setup op
            | "ss" | "sl" -> predict_str setup op
            | "ns" -> if setup = [] then predict_ns op else raise Unmodelled
            | "ds" -> if setup = [] then predict_ds () else raise Unmodelled
